@@ -55,11 +55,11 @@ Signs(b)  == { <<s1*b[1], s2*b[2], s3*b[3]>> : s1 \in {-1,1}, s2 \in {-1,1}, s3 
 Orbit(b)  == UNION { Signs(p) : p \in Perms(b) }
 
 (* =============================== rate integrator =================================== *)
-RateLims == IF Thorough THEN { <<3,2,0>>, <<6,1,4>>, <<8,8,8>>, <<1,20,5>> } ELSE { <<3,2,0>>, <<6,1,4>> }
-RateEs   == IF Thorough THEN { <<a,b,c>> : a \in {-3,-1,0,2}, b \in {-2,0,1,5}, c \in {-9,-1,0,1} }
+RateLims == IF Thorough THEN { <<3,2,0>>, <<6,1,4>>, <<4,4,4>>, <<1,20,5>> } ELSE { <<3,2,0>>, <<6,1,4>> }
+RateEs   == IF Thorough THEN { <<a,b,c>> : a \in {-3,-1,0,2}, b \in {-2,1,5}, c \in {-9,0,1} }
             ELSE { <<0,0,0>>, <<1,-1,2>>, <<-1,2,0>>, <<3,0,-1>>, <<-2,-3,1>>, <<0,1,-2>>, <<5,-5,5>>,
                    <<-7,7,-7>>, <<1,1,1>>, <<-1,-1,-1>> }
-RateDts  == IF Thorough THEN {1, 2, 3, 7} ELSE {1, 2, 3}
+RateDts  == IF Thorough THEN {1, 3, 7} ELSE {1, 2, 3}
 
 Nearest1(x, lim, y) == \* y is the point of [-lim, lim] nearest to x
     /\ -lim <= y /\ y <= lim
@@ -117,7 +117,7 @@ StickOk(N, yi, d, dtq) == /\ 12 * Abs(yi) <= N * dtq
                           /\ 4 * (d[1]*d[1] + d[2]*d[2]) <= (dtq * VU) * (dtq * VU)     \* |d_xy| <= 2 dt
                           /\ 4 * Abs(d[3]) <= dtq * VU                                  \* |d_z|  <= 1 dt
 DtFor(N, yi, d) == CHOOSE dtq \in DtQs : StickOk(N, yi, d, dtq) /\ \A o \in DtQs : StickOk(N, yi, d, o) => dtq <= o
-DtChoices(N, yi, d) == { DtFor(N, yi, d), 8 }                 \* the shortest admissible time step and 2 s
+DtChoices(N, yi, d) == IF Thorough /\ yi = 0 THEN { DtFor(N, yi, d), 8 } ELSE { DtFor(N, yi, d) }   \* shortest admissible step (and 2 s)
 
 (* wrap of the yaw index: representatives of x modulo 2N in [-N, N] *)
 Wraps(N, x) == { y \in (-N)..N : (y - x) % (2 * N) = 0 }
@@ -138,21 +138,22 @@ LCell(e) == LET n2 == NormSq(e) IN IF n2 = 0 THEN "zero" ELSE IF n2 < VL * VL TH
 
 (* direction pairs used by one behaviour: <<b1, |b1|, b2, |b2|>> *)
 VelDirs == IF Thorough
-           THEN { <<<<1,0,0>>,1, <<0,0,1>>,1>>, <<<<1,2,2>>,3, <<0,1,0>>,1>>, <<<<0,3,4>>,5, <<-2,2,1>>,3>>,
-                  <<<<2,-3,6>>,7, <<1,0,0>>,1>>, <<<<2,10,11>>,15, <<0,-4,3>>,5>>, <<<<-4,13,16>>,21, <<0,0,1>>,1>>,
-                  <<<<6,10,-33>>,35, <<3,0,4>>,5>> }
-           ELSE { <<<<1,2,2>>,3, <<0,1,0>>,1>>, <<<<2,-3,6>>,7, <<4,0,-3>>,5>>, <<<<0,3,4>>,5, <<0,0,1>>,1>> }
+           THEN { <<<<1,2,2>>,3, <<0,1,0>>,1>>, <<<<2,-3,6>>,7, <<4,0,-3>>,5>>, <<<<2,10,11>>,15, <<0,0,1>>,1>>,
+                  <<<<6,10,-33>>,35, <<-2,2,1>>,3>> }
+           ELSE { <<<<1,2,2>>,3, <<0,1,0>>,1>>, <<<<2,-3,6>>,7, <<4,0,-3>>,5>> }
 VelN    == IF Thorough THEN 4 ELSE 2
-VelBox  == IF Thorough THEN 3 * VU ELSE 2 * VU
+VelBox  == 2 * VU
 Along(b, nb, len) == VScale(len \div nb, b)                    \* the vector of length len along b (nb | len)
+(* commanded set-point displacements (world frame): along both directions of the behaviour *)
 VelDs(dr) == { Zero3, Along(dr[1], dr[2], VU \div 2), VNeg(Along(dr[1], dr[2], VU \div 2)), Along(dr[1], dr[2], VU),
-               Along(dr[3], dr[4], VU \div 2), VNeg(Along(dr[3], dr[4], VU)) }
-VelMs(dr) == { Along(dr[1], dr[2], VU \div 2), VNeg(Along(dr[1], dr[2], VU)), Along(dr[1], dr[2], 3 * VU),
-               Along(dr[3], dr[4], VU \div 2), VNeg(Along(dr[3], dr[4], VU \div 2)) }
+               Along(dr[3], dr[4], VU \div 2) }
+               \cup (IF Thorough THEN { VNeg(Along(dr[3], dr[4], VU)) } ELSE {})
+(* vehicle motion: along the first direction only (keeps the graph small) *)
+VelMs(dr) == { Along(dr[1], dr[2], VU \div 2), VNeg(Along(dr[1], dr[2], VU)), Along(dr[1], dr[2], 3 * VU) }
 VelYis  == {-1, 0, 1}
 
 VelMem(N, dr, k, sp, pw) == [m |-> "vel", op |-> "mem", N |-> N, dr |-> dr, k |-> k, sp |-> sp, pw |-> pw]
-VelInit == \E dr \in VelDirs : \E sp \in { Zero3, dr[1], Along(dr[3], dr[4], 5 * VU) } : \E k \in {0, VelN} :
+VelInit == \E dr \in VelDirs : \E sp \in { Zero3, Along(dr[3], dr[4], 5 * VU) } : \E k \in {0, VelN} :
               st = VelMem(VelN, dr, k, sp, Zero3)
 VelCall(yi, d, reset) ==          \* one call of the velocity-mode input; vehicle at st.pw
     LET e == IF reset THEN Zero3 ELSE VSub(VAdd(st.sp, d), st.pw) IN
@@ -164,10 +165,14 @@ VelCall(yi, d, reset) ==          \* one call of the velocity-mode input; vehicl
                 pre |-> [k |-> st.k, sp |-> st.sp],
                 in |-> [yi |-> yi, d |-> d, dtq |-> dtq, reset |-> reset],
                 err |-> e, cell |-> LCell(e), tie |-> Cardinality(Wraps(st.N, st.k + yi)) > 1]
+(* quick tier: the yaw increment is tied to the displacement choice (keeps the product small);
+   thorough: every combination *)
+YiFor(dr, d) == IF d = Zero3 THEN {0, 1} ELSE IF d = Along(dr[1], dr[2], VU \div 2) THEN {1}
+                ELSE IF d = Along(dr[1], dr[2], VU) THEN {0} ELSE {-1}
 VelInput == /\ st.m = "vel" /\ st.op = "mem"
-            /\ \E yi \in VelYis, d \in VelDs(st.dr) : VelCall(yi, d, FALSE)
+            /\ \E d \in VelDs(st.dr) : \E yi \in (IF Thorough THEN VelYis ELSE YiFor(st.dr, d)) : VelCall(yi, d, FALSE)
 VelReset == /\ st.m = "vel" /\ st.op = "mem"
-            /\ \E yi \in VelYis, d \in VelDs(st.dr) : VelCall(yi, d, TRUE)
+            /\ \E yi \in (IF Thorough THEN {0, 1} ELSE {1}) : VelCall(yi, Along(st.dr[1], st.dr[2], VU), TRUE)
 Move     == /\ st.m = "vel" /\ st.op = "mem"
             /\ \E mv \in VelMs(st.dr) :
                  LET p2 == VAdd(st.pw, mv) IN
@@ -197,8 +202,10 @@ AttBase  == IF Thorough THEN { q \in QLat(2) : Primitive(q) } ELSE QLat(1)
    switches, near and exactly 180 deg, both quaternion signs *)
 AttSpecial == { <<10000,1,0,0>>, <<-10000,1,-2,2>>, <<2000,0,1,0>>, <<-1999,0,0,1>>, <<64,1,0,0>>, <<63,1,0,0>>,
                 <<-64,0,1,0>>, <<32,0,0,1>>, <<31,0,0,-1>>, <<1,0,0,100>>, <<-1,100,100,0>>, <<1,20,-20,10>>,
-                <<-1,0,150,0>>, <<1,0,0,300>>, <<-1,0,1000,0>>, <<0,1,2,2>>, <<0,0,0,-1>>, <<-3,0,0,0>>, <<5,0,0,0>> }
-AttSpecialQ == { <<1,0,0,0>>, <<-1,1,1,0>>, <<1,-1,1,1>>, <<0,1,0,-1>>, <<-1,-1,-1,-1>>, <<0,0,1,0>> }
+                <<-1,0,150,0>>, <<1,0,0,300>>, <<-1,0,1000,0>>, <<0,1,2,2>>, <<0,0,0,-1>>, <<-1,0,0,0>>, <<-3,0,0,0>>, <<5,0,0,0>>, <<-5,0,0,0>>,
+                <<-7,0,0,0>> }
+AttSpecialQ == { <<1,0,0,0>>, <<-1,1,1,0>>, <<1,-1,1,1>>, <<0,1,0,-1>>, <<-1,-1,-1,-1>>, <<0,0,1,0>>,
+                 <<-3,-3,-3,-2>>, <<-3,-3,-2,-1>>, <<-3,-2,-1,-1>>, <<3,1,2,1>>, <<1,2,3,4>>, <<2,-3,1,3>>, <<-3,-1,-2,-1>> }
 QRed(q) == LET g == Gcd(Gcd(q[1], q[2]), Gcd(q[3], q[4])) IN << q[1] \div g, q[2] \div g, q[3] \div g, q[4] \div g >>
 ECell(e) == LET v2 == e[2]*e[2] + e[3]*e[3] + e[4]*e[4] IN
             IF v2 = 0 THEN (IF e[1] > 0 THEN "same/qr=+q" ELSE "same/qr=-q")
@@ -295,10 +302,13 @@ VelLaw  == st.op \in {"VelInput", "VelReset"} =>
               /\ StickOk(st.N, st.in.yi, st.in.d, st.in.dtq)
               /\ (st.in.reset => st.err = Zero3) /\ (~st.in.reset => st.err = VSub(VAdd(st.pre.sp, st.in.d), st.pw))
               /\ (st.tie <=> (st.k = st.N \/ st.k = -st.N))
-AttLaw  == st.op = "att" =>
+QSmallC(q) == \A k \in 1..4 : Abs(q[k]) <= 30                             \* 32-bit guard for the matrix laws
+AttGuard == /\ st.op = "att" /\ QSmallC(st.q) /\ QSmallC(st.qr) /\ QSmallC(st.e)
+            /\ QNorm(st.q) * QNorm(st.e) < 2000 /\ QNorm(st.qr) < 2000
+AttLaw  == AttGuard =>
               /\ (st.same <=> SameRot(st.q, st.qr))                         \* zero error <=> same rotation
-              /\ (QNorm(st.e) < 1000 /\ QNorm(st.qr) < 1000) =>             \* X * E = X_r as rotations (32-bit guard)
-                    MScale(QNorm(st.qr), M3Mul(QMat(st.q), QMat(st.e))) = MScale(QNorm(st.q) * QNorm(st.e), QMat(st.qr))
+              /\ MScale(QNorm(st.qr), M3Mul(QMat(st.q), QMat(st.e)))        \* X * E = X_r as rotations
+                    = MScale(QNorm(st.q) * QNorm(st.e), QMat(st.qr))
 AlphaLaw == st.op = "alpha" =>
               /\ 0 < st.lo[1] /\ st.lo[1] < st.lo[2] /\ 0 < st.hi[1] /\ st.hi[1] < st.hi[2]      \* 0 < lo, hi < 1
 StickInv == st.op = "stick" => StickLaw(st.s1, st.s2, st.lam)
